@@ -10,6 +10,7 @@ package inmemory
 import (
 	"bytes"
 	"fmt"
+	"strings"
 	"testing"
 
 	"github.com/ChainSafe/gossamer/internal/verifmc"
@@ -104,12 +105,45 @@ func TestVerif_C03(t *testing.T) {
 	defer r.Write()
 	maxTries := 3
 	depth := verifmc.Pick(5, 6)
-	r.Rule = fmt.Sprintf("BFS (depth %d) over histories on a forest of up to %d tries related by Snapshot (snapshots of snapshots included): put/delete/clearPrefix on keys 01,0100,0101 with values 01 and a 40-byte value (inline in V0, hashed in V1), raising any trie to V1, hashing any trie; states deduplicated on the full private dump of all tries including node sharing; after every operation every trie of the forest must have the contents and the independent spec root of its own model", depth, maxTries)
-	keys := [][]byte{{0x01}, {0x01, 0x00}, {0x01, 0x01}}
+	r.Rule = fmt.Sprintf("BFS (depth %d) over histories on a forest of up to %d tries related by Snapshot (snapshots of snapshots included): put/delete/clearPrefix on keys 01,0100,0101 (from populated bases also 0102 and 10) with values 01 and a 40-byte value (inline in V0, hashed in V1), raising any trie to V1, hashing any trie; states deduplicated on the full private dump of all tries including node sharing; after every operation every trie of the forest must have the contents and the independent spec root of its own model", depth, maxTries)
+	c03Run(r, "", depth, maxTries)
+	// populated bases (a branch with a leaf and a sub-branch below it; a valued branch; hashed or not):
+	// shapes that need 3-4 puts to build are then one step from the start
+	dSeed := verifmc.Pick(4, 5)
+	for _, seed := range []string{"leaf+subbranch", "valued-branch", "leaf+subbranch/hashed", "valued-branch/hashed"} {
+		c03Run(r, seed, dSeed, maxTries)
+	}
+	r.Extra["depth_from_populated_bases"] = dSeed
+}
+
+var c03Seeds = map[string][]vTrieOp{
+	"leaf+subbranch": {{kind: "put", k: []byte{0x01, 0x00}, v: []byte{0x01}}, {kind: "put", k: []byte{0x01, 0x01}, v: []byte{0x01}}, {kind: "put", k: []byte{0x10}, v: []byte{0x01}}},
+	"valued-branch":  {{kind: "put", k: []byte{0x01}, v: vVal(0x40, 40)}, {kind: "put", k: []byte{0x01, 0x00}, v: []byte{0x01}}, {kind: "put", k: []byte{0x01, 0x01}, v: []byte{0x01}}, {kind: "put", k: []byte{0x10}, v: []byte{0x01}}},
+}
+
+func c03Run(r *verifmc.Report, seed string, depth, maxTries int) {
+	keys := [][]byte{{0x01}, {0x01, 0x00}, {0x01, 0x01}, {0x01, 0x02}, {0x10}}
 	vals := [][]byte{{0x01}, vVal(0x40, 40)}
+	if seed == "" {
+		keys = keys[:3]
+	}
 	h := &verifmc.Hist[*c03Forest]{
 		Fresh: func() *c03Forest {
-			return &c03Forest{ts: []*c03T{{&vTrieState{t: NewEmptyTrie(), m: ref.OMap{}, v: trie.V0}, map[string]bool{}, false}}}
+			base := &c03T{&vTrieState{t: NewEmptyTrie(), m: ref.OMap{}, v: trie.V0}, map[string]bool{}, false}
+			name := strings.TrimSuffix(seed, "/hashed")
+			for _, o := range c03Seeds[name] {
+				if d := vApplyTrieOp(base.vTrieState, o); d != "" {
+					panic("seed: " + d)
+				}
+				base.hashed[string(o.k)] = false
+			}
+			if strings.HasSuffix(seed, "/hashed") {
+				if _, err := base.t.Hash(); err != nil {
+					panic(err)
+				}
+			}
+			base.soft = nil
+			return &c03Forest{ts: []*c03T{base}}
 		},
 		Ops: func(f *c03Forest) []verifmc.Op {
 			var ops []verifmc.Op
